@@ -1,16 +1,16 @@
 #!/bin/sh
-# try_seed.sh <name e.g. c01_a> <PROP> [<PROP>...] : confirm a seeded change and run checks against it
+# try_seed.sh <name e.g. c01_a> <PROP> [<PROP>...] : confirm a seeded change and run checks against it.
+# Works on a scratch COPY of /repo (so that /repo and the committed evidence are never touched).
 N="$1"; shift
-WT=/tmp/seed_$N; OUT=/tmp/seedout_$N
+WT=/tmp/seed_$N; OUT=/tmp/seedout_$N; SCR=/tmp/xv_try_$N
 cd /tmp
 PATH=/verif/shims/bin:$PATH PYTHONPATH=$WT:/verif/shims /venv/bin/python $OUT/demo.py >/dev/null 2>&1; echo "demo with change: rc=$?"
 PATH=/verif/shims/bin:$PATH PYTHONPATH=/repo:/verif/shims /venv/bin/python $OUT/demo.py >/dev/null 2>&1; echo "demo on /repo:    rc=$?"
+rm -rf $SCR; mkdir -p $SCR; rsync -a --exclude .git /repo/ $SCR/repo/
+(cd $SCR/repo && patch -p1 -s < $OUT/patch.diff) || { echo "PATCH DOES NOT APPLY"; rm -rf $SCR; exit 1; }
 cd /verif
-git -C /repo apply $OUT/patch.diff || { echo "PATCH DOES NOT APPLY"; exit 1; }
-tools/baseline.sh
+XV_BASELINE_REPO=$SCR/repo tools/baseline.sh
 for P in "$@"; do
-  timeout 2400 ./check $P --tier quick 2>&1 | grep -v "^Parsing\|^Semantic\|^Linting\|Warning\|is not a valid\|warnings.warn" | grep -v "^VIOLATION" | tail -4 | cut -c1-400
+  XV_REPO=$SCR/repo XV_OUT=$SCR/out timeout 2400 ./check $P --tier quick 2>&1 | grep -v "^Parsing\|^Semantic\|^Linting\|Warning\|is not a valid\|warnings.warn" | grep -v "^VIOLATION" | tail -4 | cut -c1-400
 done
-git -C /repo checkout -- .
-git -C /repo status --short | head -3
-git -C /verif checkout -- evidence 2>/dev/null
+rm -rf $SCR
